@@ -1116,6 +1116,10 @@ func (ni *negInt) Value() (driver.Value, error) {
 }
 
 func dbtype(abitype string, d []byte) any {
+	// elements of a selected array are typed like their element type
+	if i := strings.Index(abitype, "["); i >= 0 {
+		abitype = abitype[:i]
+	}
 	switch {
 	case strings.HasPrefix(abitype, "int"):
 		x := &uint256.Int{}
